@@ -2,8 +2,9 @@ import MetadorModel.Model.Codec
 /-!
 # Model of the override check of schema classes (property C13)
 
-* `isSubtype T a b` mirrors `metador_core/util/typing.py:223-241` (`is_subtype`: the
-  Annotated / Literal pre-checks, then `runtype.validation.is_subtype`, i.e. `canon a <= canon b`
+* `isSubtype T a b` mirrors `metador_core/util/typing.py:207-234` (`is_subtype`: the
+  Annotated / Literal pre-checks, the refusal of Literals nested below a non-literal type
+  (`_has_literal`, since `fix: is_subtype refuses literals nested below a non-literal type`), then `runtype.validation.is_subtype`, i.e. `canon a <= canon b`
   on runtype 0.3.5's canonical types: `PythonDataType` (nominal `issubclass`), `OneOf`
   (literal value sets with Python `==`, validated against the other type when that is not a
   `OneOf`), `SumType` (with the merge of all `OneOf` members that `pytypes.SumType.__init__`
@@ -209,11 +210,30 @@ def isLit : Ty → Bool
   | .lit _ => true
   | _ => false
 
-/-- `metador_core.util.typing.is_subtype` -/
+mutual
+/-- `_has_literal` (`util/typing.py:207`): a `Literal` anywhere in the hint (`traverse_typehint`
+follows `get_args`, i.e. also through `Annotated`; a schema class has no arguments) -/
+def hasLit : Ty → Bool
+  | .lit _ => true
+  | .opt t => hasLit t
+  | .list t => hasLit t
+  | .set t => hasLit t
+  | .ann t => hasLit t
+  | .union ts => hasLitAny ts
+  | _ => false
+def hasLitAny : List Ty → Bool
+  | [] => false
+  | t :: ts => hasLit t || hasLitAny ts
+end
+
+/-- `metador_core.util.typing.is_subtype` (`util/typing.py:211-234`): equal Annotated / Literal
+status of the outermost types; a Literal nested below a non-literal type is refused unless the
+base type has a Literal somewhere as well; then runtype's `<=` -/
 def isSubtype (T : Table) : Ty → Ty → Bool
   | .ann a, .ann b => isSubtype T a b
   | a, b =>
     if isAnn a != isAnn b || isLit a != isLit b then false
+    else if !isLit a && hasLit a && !hasLit b then false
     else le T (canon a) (canon b)
 
 /-! ## class construction -/
